@@ -16,7 +16,7 @@ DRIVERS = ("c13",)
 MODEL_TARGETS = ["Model/Lattice.vo", "Model/Dual.vo", "Model/Truncate.vo"]
 TARGETS = ["Proofs/DualFacts.vo", "Proofs/TruncateFacts.vo", "Proofs/TruncateDegrees.vo",
            "Proofs/TruncateFacesGeom.vo", "Proofs/TruncateFacesRot.vo", "Proofs/TruncateFaces.vo",
-           "Proofs/TruncateFacesWinding.vo"]
+           "Proofs/TruncateFacesWinding.vo", "Proofs/TruncateOldFaces.vo", "Proofs/TruncateOldValid.vo"]
 LEVEL = "proof"
 TRUST = [
     "hand-written Gallina models coq/Model/Dual.v (make_dual over Q) and coq/Model/Truncate.v (vertices_to_polygon, statement by statement, in integer units of 1/(3*scale)): "
